@@ -11,12 +11,33 @@ Theorem C13_one_decider : forall a b, ep_id a <> ep_id b -> masters a b = 1%nat.
 Proof. exact one_decider. Qed.
 Print Assumptions C13_one_decider.
 
-(* either both switch to the RPC protocol with identical parameters -- the highest common
-   version, the highest common vocabulary index, matching table hash -- or both fail *)
+(* "either both switch to the RPC protocol with identical parameters ... or both abandon the connection with a negotiation error".
+   The full two-way statement
+     forall a b oa ob, ep_id a <> ep_id b -> negotiate a b = (oa, ob) ->
+       (exists p, oa = Banana p /\ ob = Banana p /\ agreed a b p) \/ (exists w1 w2, oa = Failed w1 /\ ob = Failed w2)
+   is FALSE of the code and of the faithful model: sendDecision sends the decision block and switches to the RPC protocol at once
+   (the version-1 protocol has no acknowledgement), so when the non-decider refuses the decision the decider already has its
+   Broker and only sees the connection being lost (known finding oracle/decider-switched-before-refusal; the witness below is
+   replayed on the real code on every run: both ends version 3..3, table 1..1, table 1 differs) *)
+Theorem C13_agreement_two_way_refuted :
+  exists a b oa ob, ep_id a <> ep_id b /\ implements_own_range a /\ implements_own_range b /\ negotiate a b = (oa, ob) /\
+    ~ ((exists p, oa = Banana p /\ ob = Banana p) \/ (exists w1 w2, oa = Failed w1 /\ ob = Failed w2)) /\
+    oa = SwitchedThenLost {| p_version := 3; p_vocab := 1 |} /\ ob = Failed "NegotiationError".
+Proof. exact agreement_two_way_refuted. Qed.
+Print Assumptions C13_agreement_two_way_refuted.
+
+(* WEAKER than the property text, and what does hold for any two endpoints with distinct ids (no invariant assumed): both switch
+   with identical parameters -- the highest common version, the highest common vocabulary index, matching table hash --, or both
+   abandon before anything was created, or the DECIDER ALONE has switched (with the highest common version and table) and then
+   loses the connection while the non-decider abandons.  Never the non-decider alone, never two different sets of parameters.
+     both_switched m s om os        := exists p, om = Banana p /\ os = Banana p /\ agreed m s p
+     both_abandoned om os           := exists w1 w2, om = Failed w1 /\ os = Failed w2
+     decider_switched_alone m s om os := exists p w, om = SwitchedThenLost p /\ os = Failed w /\ best_params m s p *)
 Theorem C13_agreement : forall a b oa ob,
   ep_id a <> ep_id b -> negotiate a b = (oa, ob) ->
-  (exists p, oa = Banana p /\ ob = Banana p /\ agreed a b p) \/
-  (exists w1 w2, oa = Failed w1 /\ ob = Failed w2).
+  both_switched a b oa ob \/ both_abandoned oa ob \/
+  (i_am_master (ep_id a) (ep_id b) = true /\ decider_switched_alone a b oa ob) \/
+  (i_am_master (ep_id b) (ep_id a) = true /\ decider_switched_alone b a ob oa).
 Proof. exact agreement. Qed.
 Print Assumptions C13_agreement.
 
@@ -35,7 +56,7 @@ Print Assumptions C13_success_when_compatible.
 Theorem C13_best_overlap_spec : forall a b c d,
   (forall v, best_overlap a b c d = Ok v <-> (v = Z.min b d /\ a <= v /\ c <= v)) /\
   ((exists t, best_overlap a b c d = Exc t) <-> (forall v, ~ (a <= v <= b /\ c <= v <= d))).
-Proof. intros a b c d; split; [intros v; apply best_overlap_ok | apply best_overlap_exc]. Qed.
+Proof. exact best_overlap_spec. Qed.
 Print Assumptions C13_best_overlap_spec.
 
 (* oversized negotiation input is refused, stated over the verdict TRANSLATED from dataReceived (0 = refuse): a terminator beyond
@@ -59,7 +80,7 @@ Print Assumptions C13_split_chunk_independent.
 (* feeding packet by packet equals feeding the whole stream at once *)
 Theorem C13_split_incremental_is_whole : forall (ok : list Z -> bool) k (cs : list (list Z)),
   nfeed_all ok (NWait [] (S k)) cs = nfeed ok (NWait [] (S k)) (List.concat cs).
-Proof. intros; apply nfeed_all_concat; apply init_stable. Qed.
+Proof. exact split_incremental_is_whole. Qed.
 Print Assumptions C13_split_incremental_is_whole.
 
 (* "Malformed, oversized ... negotiation input only ever ends that connection attempt" -- the oversize verdict itself, read from
@@ -87,16 +108,38 @@ Theorem C13_equal_ids_both_fail : forall a b, ep_id a = ep_id b -> exists w, neg
 Proof. exact equal_ids_both_fail. Qed.
 Print Assumptions C13_equal_ids_both_fail.
 
-(* "either both switch ... with identical parameters ... or both abandon the connection with a negotiation error", EXACTLY WHEN:
-   for any two endpoints with distinct ids that implement the versions they offer (asserted by Negotiation.__init__), both get
-   the same parameters (highest common version, highest common table, equal hash) iff the ranges meet and the highest common
-   table has the same hash on both sides; otherwise both fail and each failure is a negotiation error *)
+(* "either both switch ... with identical parameters ... or both abandon the connection with a negotiation error", EXACTLY: for any
+   two endpoints with distinct ids that implement the versions they offer (asserted by Negotiation.__init__),
+   (1) both get the same parameters (highest common version, highest common table, equal hash) iff the ranges meet and the highest
+       common table has the same hash on both sides (compatible);
+   (2) if the ranges do not meet -- the failure happens BEFORE a decision is sent (C13_decision_sent_iff) -- both abandon and each
+       failure is a negotiation error (NegotiationError or RemoteNegotiationError; the loss of a connection is not one);
+   (3) if the ranges meet but the two are not compatible -- the decision IS sent and the non-decider refuses it -- the non-decider
+       abandons with NegotiationError and the decider has already switched with the highest common version and table: it ends
+       SwitchedThenLost, NOT with a negotiation error.  (3) is where the code departs from the property text: see
+       C13_agreement_two_way_refuted (region inhabited: refused_decision_example; (2) inhabited: no_decision_example) *)
 Theorem C13_agreement_exact : forall a b,
   ep_id a <> ep_id b -> implements_own_range a -> implements_own_range b ->
   (compatible a b -> exists p, negotiate a b = (Banana p, Banana p) /\ agreed a b p) /\
-  (~ compatible a b -> exists w1 w2, negotiate a b = (Failed w1, Failed w2) /\ negotiation_error w1 /\ negotiation_error w2).
+  (~ ranges_meet a b -> exists w1 w2, negotiate a b = (Failed w1, Failed w2) /\ negotiation_error w1 /\ negotiation_error w2) /\
+  (ranges_meet a b -> ~ compatible a b ->
+     exists p, best_params a b p /\ decider_first a b (negotiate a b) = (SwitchedThenLost p, Failed "NegotiationError")).
 Proof. exact agreement_exact. Qed.
 Print Assumptions C13_agreement_exact.
+
+(* the decider sends a decision exactly when both pairs of ranges meet *)
+Theorem C13_decision_sent_iff : forall m s, (exists d, master_decide m s = Ok d) <-> ranges_meet m s.
+Proof. exact decision_sent_iff. Qed.
+Print Assumptions C13_decision_sent_iff.
+
+(* "both abandon the connection with a negotiation error" happens exactly when the failure precedes the decision; "both switch"
+   exactly when the two are compatible; in between lies the refused decision *)
+Theorem C13_both_abandon_iff_no_decision : forall a b,
+  ep_id a <> ep_id b -> implements_own_range a -> implements_own_range b ->
+  ((exists w1 w2, negotiate a b = (Failed w1, Failed w2)) <-> ~ ranges_meet a b) /\
+  ((exists p, negotiate a b = (Banana p, Banana p)) <-> compatible a b).
+Proof. exact both_abandon_iff_no_decision. Qed.
+Print Assumptions C13_both_abandon_iff_no_decision.
 
 (* "the highest protocol version both support", against a decider that does NOT follow the protocol: the full statement
      forall s d p, implements_own_range s -> slave_accept s d = Ok p -> in_range (ep_vmin s) (ep_vmax s) (p_version p)
@@ -199,7 +242,7 @@ Print Assumptions C13_block_advances_or_ends.
 
 (* every state reached from a fresh client or server object by any sequence of blocks is legal ... *)
 Theorem C13_legal_run : forall c vs, legal (run_blocks (init_state c) vs).
-Proof. intros c vs. apply legal_run. apply legal_init. Qed.
+Proof. exact legal_run_from_init. Qed.
 Print Assumptions C13_legal_run.
 
 (* ... in legal states the `assert 0` arm of the dispatch is never taken ... *)
@@ -250,11 +293,14 @@ Theorem C13_wire_negotiate_eq : forall hf, token_fmt hf -> forall a b, wire_ok h
 Proof. exact wire_negotiate_eq. Qed.
 Print Assumptions C13_wire_negotiate_eq.
 
-(* ... so the property holds of the bytes: identical parameters (highest common version, highest common table, equal hash) exactly
-   when the two are compatible, otherwise both fail, each with a negotiation error *)
+(* ... so the exact three-way statement holds of the bytes: identical parameters (highest common version, highest common table, equal
+   hash) exactly when the two are compatible; both abandon, each with a negotiation error, when the ranges do not meet (no decision
+   block is written); when a decision block is written and refused, the decider has already switched and only loses the connection *)
 Theorem C13_wire_agreement_exact : forall hf, token_fmt hf -> forall a b, wire_ok hf a b -> wire_ok hf b a ->
   ep_id a <> ep_id b -> implements_own_range a -> implements_own_range b ->
   (compatible a b -> exists p, wire_negotiate hf a b = (Banana p, Banana p) /\ agreed a b p) /\
-  (~ compatible a b -> exists w1 w2, wire_negotiate hf a b = (Failed w1, Failed w2) /\ negotiation_error w1 /\ negotiation_error w2).
+  (~ ranges_meet a b -> exists w1 w2, wire_negotiate hf a b = (Failed w1, Failed w2) /\ negotiation_error w1 /\ negotiation_error w2) /\
+  (ranges_meet a b -> ~ compatible a b ->
+     exists p, best_params a b p /\ decider_first a b (wire_negotiate hf a b) = (SwitchedThenLost p, Failed "NegotiationError")).
 Proof. exact wire_agreement_exact. Qed.
 Print Assumptions C13_wire_agreement_exact.
